@@ -42,7 +42,7 @@ func (u userOp) String() string  { return u.Text }
 func (u userOp) Context() string { return u.Ctx }
 
 // structs used as leaves
-type pubStruct struct {
+type PubStruct struct {
 	A int
 	B string
 	C float64
@@ -53,7 +53,7 @@ type privStruct struct {
 	B    string
 }
 type embStruct struct {
-	pubStruct
+	PubStruct
 	D bool
 }
 type ptrStruct struct {
@@ -219,11 +219,11 @@ func (v Val) Value() any {
 		}
 		return m
 	case "pub":
-		return pubStruct{A: int(v.I), B: v.S, C: v.F}
+		return PubStruct{A: int(v.I), B: v.S, C: v.F}
 	case "priv":
 		return privStruct{A: int(v.I), priv: "hidden", B: v.S}
 	case "emb":
-		return embStruct{pubStruct: pubStruct{A: int(v.I), B: v.S, C: v.F}, D: v.B}
+		return embStruct{PubStruct: PubStruct{A: int(v.I), B: v.S, C: v.F}, D: v.B}
 	case "pstruct":
 		x := int(v.I)
 		s := make([]int, 0, len(v.Elems))
